@@ -3,7 +3,7 @@
    58e1fc2 MultiFileReader.seek, 3166b79 __next__ at/past the end, 7904e8d
    SpooledBytesIO.readlines(sizehint), b866c21 SpooledStringIO.rollover, 9c350bf read(None),
    bb0f4f6 SpooledBytesIO.readline(0), 3d28150 text readline/readlines at "\n" only,
-   6d704f0 negative seek, 78e0b96 MultiFileReader.read(0)).  Definitions only.
+   6d704f0 negative seek, 78e0b96 MultiFileReader.read(0), 29482f0 write() returns the count).  Definitions only.
 
    What is modelled and trusted (not verified):
    * the backing object - io.BytesIO before rollover, tempfile.TemporaryFile
@@ -130,7 +130,7 @@ Definition sb_write (s : sbytes) (d : list N) : sbytes :=
 
 Definition sb_step (s : sbytes) (op : fop) : sbytes * fobs :=
   match op with
-  | Write d => (sb_write s d, ONone)
+  | Write d => (sb_write s d, ONat (length d))              (* return self.buffer.write(s) *)
   | WriteLines ds => (fold_left sb_write ds s, ONone)       (* for line in lines: self.write(line) *)
   | Rollover => (sb_rollover s, ONone)
   | WriteBad => (s, OErr TypeError)
@@ -419,7 +419,7 @@ Definition ss_ok (s : sstring) : bool := rd_ok (ef_rd (ss_buf s)).
 
 Definition ss_step0 (s : sstring) (op : fop) : sstring * fobs :=
   match op with
-  | Write d => (ss_write s d, ONone)
+  | Write d => (ss_write s d, ONat (length d))              (* return len(s) *)
   | WriteLines ds => (fold_left ss_write ds s, ONone)
   | Rollover => (ss_rollover s, ONone)
   | WriteBad => (s, OErr TypeError)
